@@ -77,6 +77,9 @@ fn run_shard(a: &[String]) -> i32 {
         eprintln!("unknown property {id}");
         return 2;
     }
+    for (_, (_, viol)) in acc.viol.iter_mut() {
+        viol.case["profile"] = json!(profile);
+    }
     let mut v = acc.to_json();
     v["wall_s"] = json!(t0.elapsed().as_secs_f64());
     std::fs::write(out, serde_json::to_vec(&v).unwrap()).unwrap();
@@ -159,6 +162,8 @@ fn run_parent(id: &str, tier: &str) -> i32 {
         }
         return 2;
     }
+
+    props::post_merge(id, &mut merged);
 
     // ---- known findings
     let kf: Value = std::fs::read(Path::new(VERIF).join("known_findings.json"))
